@@ -41,6 +41,8 @@ ASSUMPTIONS = [
     "exact-surface fits are only judged for float inputs (integer counts cannot put a CoM exactly on a plane) and the parabola fit only for scans >= 3x3 (full-rank design)",
     "shifts are judged against np.roll only for exactly integer fitted origins: target (0,0) = roll by -origin (the property), integer targets = roll by (target - origin) (shift_origin_to's documented 'target origin position'); fractional origins/targets are judged only differentially (history vs fresh twin)",
     "global_state cases: torch.set_float32_matmul_precision('high'/'medium'), torch.set_default_dtype(float64) and quantem config dtype_real/dtype_complex=float64/complex128 (set at run time through config.set, plain or as context manager) are applied around the calls and restored in a finally block; the origin model is float32 by construction in every state and must reproduce its default-state result bitwise-close (1e-5), the dataset model follows the configured dtype and is judged at 1e-9 px under float64; torch.autocast is not exercised (it is an explicit request for reduced precision; on the unchanged tree fit_origin_background(plane) is 0.06 px off inside autocast(bfloat16))",
+    "workflow_integer cases: positive patterns whose centre of mass is a whole pixel by construction (background + compensated deposit); the origins the workflow itself fits (calculate -> fit -> shift / forward) are whole pixels within delta ~ 1e-6..1e-4 px and the shifted patterns must be np.roll(pattern, -round(origin)) within 2e-3 + 8*delta of the pattern maximum (measured 1.7e-5; a roll by the neighbouring pixel is O(1)); destination pixels whose source lies within 2 px of the detector edge are not judged, because shift_origin_to pads with zeros instead of wrapping when it interpolates across the seam - this only matters for non-integer origins, which the property does not cover (measured on the unchanged tree: 1e-3 of the maximum on the seam, 8e-6 elsewhere)",
+    "fit_large cases: exact planes / constants over 6e4..5e5 probe positions (1x1 detector, default grid or explicit positions with 0.2..3 A steps), total descan <= 8 px; float32 PCA bound 5e-2 px (measured floor 2.5e-4 on 40x2600), fit_origin in float64 1e-6 px",
     "cross-instance: a fresh model created after a history (incl. shifts / forward() to non-default targets on another instance with the same detector shape) must reproduce the fresh model created before it",
     "explicit probe positions for the PCA plane fit are non-collinear with slopes |a| <= 2 px per position unit",
 ]
@@ -51,6 +53,8 @@ REQUIRED_COUNTERS = [
     "eval:history_vs_fresh_twin",
     "eval:cross_instance_dependence",
     "eval:global_state_dependence",
+    "eval:shift_near_integer_is_roll",
+    "eval:fit_exact_surface_large_scan",
     "eval:com_vs_oracle_float64",
     "eval:com_vs_oracle",
     "eval:vectorized_vs_looped",
@@ -70,6 +74,7 @@ TOL_FIT64 = 1e-6  # px, fit_origin on exact float64 planes (least squares in flo
 TOL_STATE = 1e-5  # px / relative: an attribute re-read (or recomputed by the same call) later on the same object (measured: bitwise equal)
 TOL_COM64 = 1e-9  # px, dataset model when the run-time configuration asks for float64 (measured floor on the unchanged tree: 0 - same float64 arithmetic; a float32 detour is >= 5e-8)
 TOL_FIT64CFG = 1e-8  # px, fits of exactly planar float64 centres under that configuration (measured floor: 2e-13)
+TOL_FIT_LARGE = 5e-2  # px, float32 PCA plane over 1e5..4e5 probe positions (measured floor 2.5e-4 on a 40x2600 scan; a lost offset is several px)
 TOL_ROLL = 5e-4  # relative to max|pattern| (float32 grid un-normalisation in grid_sample; measured floor 9e-7; an off-by-one roll is O(1))
 
 DTYPES = ["float32", "float32", "float64", "uint16", "int32"]
@@ -135,6 +140,18 @@ def plan(tier, seed):
         dt = ["float64", "float32", "float64", "uint16"][int(rng.integers(4))]
         surface = SURFACES[int(rng.integers(len(SURFACES)))] if dt.startswith("float") else "random"
         specs.append({"kind": "global_state", "state": GLOBAL_STATES[k % len(GLOBAL_STATES)], "scan": big[int(rng.integers(len(big)))] if k % 4 else _shape(rng, 2, 7, False), "det": _shape(rng, 4, 20, rng.random() < 0.8), "dtype": dt, "surface": surface, "mask": MASKS[int(rng.integers(len(MASKS)))], "how": ["set", "with"][int(rng.integers(2))]})
+    # origins that are whole pixels only up to float32 round-off, produced by the workflow itself (measure -> fit -> shift)
+    n_wf = 240 if tier == "quick" else 8000
+    for k in range(n_wf):
+        det = _shape(rng, 8, 40, rng.random() < 0.8) if k % 5 else _shape(rng, 48, 128, True)
+        scan = _shape(rng, 2, 7, False) if k % 5 else _shape(rng, 2, 4, False)
+        specs.append({"kind": "workflow_integer", "scan": scan, "det": det, "surface": ["int_plane", "int_constant"][k % 2], "fit": ["plane", "constant"][int(rng.integers(2))] if k % 2 else "plane", "mode": MODES[k % 3], "entry": ["forward", "steps"][int(rng.integers(2))]})
+    # plane / constant fits over LARGE scans (the fit only needs the (R, C, 2) table of origins: 1x1 detector)
+    large = [[330, 330], [1300, 90], [100, 1200], [512, 512], [317, 401], [90, 1300]]
+    n_large = 12 if tier == "quick" else 300
+    for k in range(n_large):
+        scan = large[k] if k < len(large) else [int(rng.integers(200, 700)), int(rng.integers(200, 700))]
+        specs.append({"kind": "fit_large", "scan": scan, "positions": ["grid", "explicit"][k % 2 if k >= len(large) else 0]})
     # interleave the kinds: when the soft time budget expires on a loaded machine every kind has still been run
     order = rng.permutation(len(specs))
     return [specs[i] for i in order]
@@ -834,9 +851,141 @@ def _run_global(spec, idx, ctx):
     ctx.observe(state=state, n=n, batch_sizes=sizes, over_32=bool(n > 32), fit=fit, dtype_com=got_ds[True][2])
 
 
+# ------------------------------------------------------------------------------------------------
+# whole-pixel origins produced by the workflow itself, and fits over large scans
+
+
+def _gen_integer_com(rng, nr, nc, H, W, kr, kc):
+    """Strictly positive, asymmetric patterns whose centre of mass is the integer (kr, kc)[i, j] up to float32 round-off:
+    fixed background B (mass S, centre c_B) + bilinear deposit of mass M at t = k + (k - c_B) S / M  =>  CoM = k."""
+    B = rng.uniform(0.02, 0.2, size=(H, W))
+    B[int(rng.integers(H)), int(rng.integers(W))] += rng.uniform(0.5, 2.0)
+    S = B.sum()
+    cB = ((B * np.arange(H)[:, None]).sum() / S, (B * np.arange(W)[None, :]).sum() / S)
+    M = S * float(rng.uniform(20, 100))
+    A = np.empty((nr, nc, H, W))
+    for a in range(nr):
+        for b in range(nc):
+            tr = kr[a, b] + (kr[a, b] - cB[0]) * S / M
+            tc = kc[a, b] + (kc[a, b] - cB[1]) * S / M
+            r0, c0 = int(np.floor(tr)), int(np.floor(tc))
+            fr, fc = tr - r0, tc - c0
+            P = B.copy()
+            P[r0, c0] += M * (1 - fr) * (1 - fc)
+            P[r0 + 1, c0] += M * fr * (1 - fc)
+            P[r0, c0 + 1] += M * (1 - fr) * fc
+            P[r0 + 1, c0 + 1] += M * fr * fc
+            A[a, b] = P
+    return (A * float(10.0 ** rng.choice([-3, 0, 0, 2]))).astype(np.float32)
+
+
+def _int_surface(rng, nr, nc, n, kind):
+    i, j = np.meshgrid(np.arange(nr), np.arange(nc), indexing="ij")
+    lo, hi = 3, n - 4  # keeps the deposit (k +- 1 px) inside the detector
+    if kind == "int_constant":
+        return np.full((nr, nc), int(rng.integers(lo, hi + 1)))
+    for _ in range(20):
+        a, b = int(rng.integers(-2, 3)), int(rng.integers(-2, 3))
+        t = a * i + b * j
+        span = int(t.max() - t.min())
+        if span <= hi - lo and (a or b):
+            return t - t.min() + int(rng.integers(lo, hi - span + 1))
+    return np.full((nr, nc), int(rng.integers(lo, hi + 1)))
+
+
+def _run_workflow_integer(spec, idx, ctx):
+    rng = ctx.rng(idx)
+    (nr, nc), (H, W) = spec["scan"], spec["det"]
+    n = nr * nc
+    kr, kc = _int_surface(rng, nr, nc, H, spec["surface"]), _int_surface(rng, nr, nc, W, spec["surface"])
+    A = _gen_integer_com(rng, nr, nc, H, W, kr, kc)
+    K = np.stack([kr.ravel(), kc.ravel()], 1).astype(np.float64)
+    orr, occ = _oracle_com(A)
+    if max(_maxabs(orr - kr), _maxabs(occ - kc)) > 1e-4:
+        from vf.core import HarnessError
+
+        raise HarnessError("generator: centre of mass is not the intended integer (%g)" % max(_maxabs(orr - kr), _maxabs(occ - kc)))
+    fit, mode = spec["fit"], spec["mode"]
+    if spec["surface"] == "int_plane":
+        fit = "plane"
+    flat = A.reshape(n, H, W).astype(np.float64)
+    scale = _maxabs(flat)
+    f = dict(impl="origin_model", mode=mode, fit=fit, entry=spec["entry"], surface=spec["surface"])
+    worst_delta, below = 0.0, False
+    for b in [None, 1, int(rng.integers(1, n + 1))]:
+        m = ctx.state["COM"].from_dataset(ctx.state["D4"].from_array(A.copy()))
+        if spec["entry"] == "forward":
+            m.forward(max_batch_size=b, fit_method=fit, estimate_detector_orientation=bool(rng.random() < 0.5), mode=mode)
+        else:
+            m.calculate_origin(b)
+            m.fit_origin_background(fit_method=fit)
+            m.shift_origin_to(max_batch_size=b, mode=mode)
+        om, of = _np(m.origin_measured), _np(m.origin_fitted)
+        _judge_com(ctx, om[:, 0].reshape(nr, nc), om[:, 1].reshape(nr, nc), orr, occ, TOL_COM, impl="origin_model", path="workflow_integer", entry=spec["entry"], masked=False, batch="na")
+        delta = _maxabs(of - K)
+        if not ctx.close(delta, TOL_FIT, "fit_exact_surface_origin_model", lambda: "origin_fitted differs from the exact integer %s the measured origins lie on (fit_method=%s)" % (spec["surface"], fit), impl="origin_model", path="workflow", entry="fit_origin_background", masked=False, fit=fit, surface=spec["surface"]):
+            continue
+        worst_delta = max(worst_delta, delta)
+        below = below or bool(np.any(of < K))
+        S = _np(m.shifted_tensor).reshape(n, H, W)
+        # The fitted origin is k + delta with |delta| ~ 1e-6..1e-4: by continuity of the interpolation the result is the roll
+        # by -k up to O(delta). Destination pixels whose source lies within 2 px of the detector edge are left out: the
+        # resampling pads with zeros there instead of wrapping, which matters for non-integer origins only (outside the claim).
+        err = 0.0
+        for p in range(n):
+            ref = np.roll(flat[p], (-int(K[p, 0]), -int(K[p, 1])), axis=(0, 1))
+            sr = (np.arange(H) + int(K[p, 0])) % H
+            scol = (np.arange(W) + int(K[p, 1])) % W
+            ok = np.ix_((sr >= 2) & (sr <= H - 3), (scol >= 2) & (scol <= W - 3))
+            err = max(err, _maxabs(S[p][ok] - ref[ok]))
+        ctx.close(err / scale, 2e-3 + 8.0 * delta, "shift_near_integer_is_roll", lambda: "origins fitted by the workflow are whole pixels within %.1e px, but shifted_tensor is not np.roll(pattern, -round(origin)) away from the wrap seam (mode=%s, max_batch_size=%r)" % (delta, mode, b), batch="none" if b is None else "1" if b == 1 else "mid", **f)
+    ctx.nontrivial(("workflow_integer", tuple(spec["scan"]), tuple(spec["det"]), spec["surface"], fit, mode, spec["entry"]), H != W and below and bool(np.any(K[:, 0] != K[:, 1])))
+    ctx.observe(n=n, max_abs_fitted_minus_integer=worst_delta, some_origin_below_its_integer=below, origins=K[:4], fit=fit, mode=mode)
+
+
+def _run_fit_large(spec, idx, ctx):
+    torch = ctx.state["torch"]
+    pu = ctx.state["pu"]
+    rng = ctx.rng(idx)
+    R, C = spec["scan"]
+    n = R * C
+    i, j = np.meshgrid(np.arange(R), np.arange(C), indexing="ij")
+    span = rng.uniform(-8, 8, size=(2, 2))  # total descan over the scan: a few detector pixels
+    span[np.abs(span) < 0.5] = 1.0
+    off = rng.uniform(2, 20, size=2)
+    z = np.stack([span[0, 0] * i / (R - 1) + span[0, 1] * j / (C - 1) + off[0], span[1, 0] * i / (R - 1) + span[1, 1] * j / (C - 1) + off[1]], -1).reshape(n, 2)
+    z32 = z.astype(np.float32)
+    if spec["positions"] == "grid":
+        m = ctx.state["COM"].from_dataset(ctx.state["D4"].from_array(np.ones((R, C, 1, 1), dtype=np.float32)))
+        pos = None
+    else:
+        m = ctx.state["COM"].from_dataset(ctx.state["D3"].from_array(np.ones((n, 1, 1), dtype=np.float32)))
+        step = rng.uniform(0.2, 3.0, size=2)
+        pos = (np.stack([i.ravel(), j.ravel()], 1) * step).astype(np.float32)
+    f = dict(impl="origin_model", positions=spec["positions"], scan_class="square" if max(R, C) < 3 * min(R, C) else "elongated")
+    for fm in ("plane", "constant"):
+        m.origin_measured = torch.tensor(z32.copy())
+        if pos is None:
+            m.fit_origin_background(fit_method=fm)
+        else:
+            m.fit_origin_background(probe_positions=torch.tensor(pos.copy()), fit_method=fm)
+        of = _np(m.origin_fitted)
+        exp = z32.astype(np.float64) if fm == "plane" else np.broadcast_to(z32.astype(np.float64).mean(0), z32.shape)
+        tol = TOL_FIT_LARGE if fm == "plane" else 1e-2  # float32 mean of 1e5..4e5 values
+        ctx.close(_maxabs(of - exp), tol, "fit_exact_surface_large_scan", lambda: "origin_fitted (%s) over a %dx%d scan differs from the exact surface handed to origin_measured" % (fm, R, C), fit=fm, **f)
+    fr, fc, rr, rc = pu.fit_origin(data=(z[:, 0].reshape(R, C).copy(), z[:, 1].reshape(R, C).copy()), fit_function="plane", mask=np.ones((R, C), dtype=bool))
+    ctx.close(max(_maxabs(fr - z[:, 0].reshape(R, C)), _maxabs(fc - z[:, 1].reshape(R, C))), TOL_FIT64, "fit_exact_surface_large_scan", lambda: "fit_origin(plane) over a %dx%d scan differs from the exact plane" % (R, C), fit="plane", impl="fit_origin", positions="grid", scan_class=f["scan_class"])
+    ctx.nontrivial(("fit_large", R, C, spec["positions"]), n >= 50000)
+    ctx.observe(scan=[R, C], n=n, span=span, off=off, positions=spec["positions"])
+
+
 def run_case(spec, idx, ctx):
     with np.errstate(all="ignore"):
-        if spec["kind"] == "global_state":
+        if spec["kind"] == "workflow_integer":
+            _run_workflow_integer(spec, idx, ctx)
+        elif spec["kind"] == "fit_large":
+            _run_fit_large(spec, idx, ctx)
+        elif spec["kind"] == "global_state":
             _run_global(spec, idx, ctx)
         elif spec["kind"] == "history":
             _run_history(spec, idx, ctx)
